@@ -166,9 +166,14 @@ def _family(case, rec):
         c = call(lambda: D[SCI])
         rec.check(not isinstance(c, Raised) and len(c) == 1 and isinstance(c[0], Fm.TabulatedGSDShapeFamily) and len(c[0].names) == 145,
                   "doi_science_repository", sig, got=repr(c)[:120])
-        for key in ("10.0000/unknown", "", "science.1220869"):
-            r = call(lambda k=key: D[k])
-            rec.check(isinstance(r, Raised) and r.type == "KeyError", "unknown_doi_raises_KeyError", sig, key=key, got=repr(r)[:80])
+        keys_before = call(lambda: sorted(D.keys()))
+        for key in ("10.0000/unknown", "", "science.1220869", "10.1126/science.0000000"):
+            for attempt in range(3):  # a failed lookup must not make the next one succeed
+                r = call(lambda k=key: D[k])
+                rec.check(isinstance(r, Raised) and r.type == "KeyError", "unknown_doi_raises_KeyError", dict(sig, attempt=attempt), key=key,
+                          got=repr(r)[:80])
+            rec.check(call(lambda k=key: k in D) is False, "unknown_doi_is_not_a_key", sig, key=key)
+        rec.check(call(lambda: sorted(D.keys())) == keys_before, "doi_keys_unchanged_by_failed_lookups", sig)
         return
     F = _family_obj(fam)
     names = list(raw(fam))
@@ -190,9 +195,21 @@ def _family(case, rec):
             # an abandoned loop must not affect the next one
             for k, shp in F:
                 break
-        for bad in ("No Such Solid", "", names[0].lower() + "?"):
-            r = call(F.get_shape, bad)
-            rec.check(isinstance(r, Raised) and r.type == "KeyError", "unknown_name_raises_KeyError", sig, key=bad, got=repr(r)[:80])
+        # unknown names: plainly unknown ones and near misses of every tabulated name (other capitalisation, stray or
+        # doubled white space, a truncated name) - anything that is not in `names` must raise, every time it is asked
+        bads = ["No Such Solid", "", names[0].lower() + "?"]
+        for nm in names:
+            bads += [nm.lower(), nm.upper(), " " + nm, nm + " ", nm.replace(" ", "  "), nm + "\n", nm[:-1], nm.swapcase()]
+        known = set(names)
+        for bad in dict.fromkeys(bads):
+            if bad in known:
+                continue
+            for attempt in range(2):
+                r = call(F.get_shape, bad)
+                if not rec.check(isinstance(r, Raised) and r.type == "KeyError", "unknown_name_raises_KeyError", dict(sig, attempt=attempt),
+                                 key=bad, got=repr(r)[:80]):
+                    break
+        rec.check(list(F.names) == names, "names_unchanged_by_failed_lookups", sig)
 
 
 def _run(case, rec):
